@@ -169,8 +169,11 @@ def cycle_matrix(tier):
         else:
             runs.append(Run(p, name="cycles", heap=16, sems="0,0,0,2,6",
                             extra=["--mode", "cycles", "--cycles", "320"] + x))
-            runs.append(Run(p, name="cycles-tryfirst", heap=16, sems="0,0,0,2,6", seed_off=5,
-                            extra=["--mode", "cycles", "--cycles", "200", "--tryfirst"]))
+            if p in ("Immix", "SemiSpace", "GenCopy", "MarkSweep", "GenImmix", "StickyImmix"):
+                # (every cycle has about ten allocation-triggered collections: the process trace also
+                # carries their scheduler events, so the number of cycles stays moderate)
+                runs.append(Run(p, name="cycles-tryfirst", heap=16, sems="0,0,0,2,6", seed_off=5,
+                                extra=["--mode", "cycles", "--cycles", "40", "--tryfirst"]))
             runs.append(Run(p, name="cycles-big", heap=64, sems="0,0,2", workers=8, seed_off=1,
                             extra=["--mode", "cycles", "--cycles", "80"] + x))
             runs.append(Run(p, name="cycles-rel", heap=24, sems="0,0,0,2,6", release=True, seed_off=2,
